@@ -1,3 +1,99 @@
 package main
 
-func runACME(k *Case) result { return result{out: "todo"} }
+// ACME finalize: Order.Finalize of /repo/acme on a ready order, with the ACME nosql database
+// opened on the same fault-injecting nosql.DB the authority uses.
+
+import (
+	"context"
+	"fmt"
+	"os"
+	"time"
+
+	"github.com/smallstep/certificates/acme"
+	acmenosql "github.com/smallstep/certificates/acme/db/nosql"
+	"github.com/smallstep/certificates/authority"
+	"github.com/smallstep/certificates/authority/provisioner"
+	c "verif/harness/common"
+	"verif/harness/fixture"
+)
+
+func runACME(k *Case) result {
+	e, err := newEnv(k)
+	if err != nil {
+		return result{out: "setup-failed"}
+	}
+	defer e.Close()
+	fail := func(what string, err error) result {
+		if os.Getenv("VERIF_DEBUG") != "" {
+			fmt.Fprintln(os.Stderr, "acme setup:", what, err)
+		}
+		return result{out: "setup-failed"}
+	}
+	adb, err := acmenosql.New(e.fdb)
+	if err != nil {
+		return fail("db", err)
+	}
+	pi, err := e.ca.Auth.LoadProvisionerByName("acme")
+	if err != nil {
+		return fail("provisioner", err)
+	}
+	prov, ok := pi.(acme.Provisioner)
+	if !ok {
+		return fail("provisioner type", nil)
+	}
+	ctx := authority.NewContext(context.Background(), e.ca.Auth)
+	ctx = provisioner.NewContextWithMethod(ctx, provisioner.SignMethod)
+	const name = "acme.verif.test"
+	acc := &acme.Account{Status: acme.StatusValid, ProvisionerID: prov.GetID(), ProvisionerName: prov.GetName(), Key: e.ca.JWK}
+	pub := e.ca.JWK.Public()
+	acc.Key = &pub
+	if err := adb.CreateAccount(ctx, acc); err != nil {
+		return fail("account", err)
+	}
+	az := &acme.Authorization{AccountID: acc.ID, Identifier: acme.Identifier{Type: acme.DNS, Value: name},
+		Status: acme.StatusValid, ExpiresAt: time.Now().Add(time.Hour), Token: "tok"}
+	if err := adb.CreateAuthorization(ctx, az); err != nil {
+		return fail("authz", err)
+	}
+	o := &acme.Order{AccountID: acc.ID, ProvisionerID: prov.GetID(), Status: acme.StatusReady, ExpiresAt: time.Now().Add(time.Hour),
+		Identifiers: []acme.Identifier{{Type: acme.DNS, Value: name}}, AuthorizationIDs: []string{az.ID}}
+	if err := adb.CreateOrder(ctx, o); err != nil {
+		return fail("order", err)
+	}
+	sans := []string{name}
+	if k.Chk == 0 { // CSR names differ from the order's identifiers
+		sans = []string{"other.verif.test"}
+	}
+	csr, _, err := fixture.CSR(name, sans)
+	if err != nil {
+		return fail("csr", err)
+	}
+	count := func() map[string]int {
+		m := e.snapshot()
+		m["acme_certs"] = e.fdb.count("acme_certs")
+		return m
+	}
+	before := count()
+	e.rec.start(k.Faults)
+	ferr := o.Finalize(ctx, adb, csr, e.ca.Auth, prov)
+	ev := e.rec.stop()
+	after := count()
+	// what a client polling the order now sees
+	valid, got := 0, "none"
+	if o2, err := adb.GetOrder(ctx, o.ID); err == nil && o2.Status == acme.StatusValid && o2.CertificateID != "" {
+		valid = 1
+		if crt, err := adb.GetCertificate(ctx, o2.CertificateID); err == nil && crt.Leaf != nil && ferr == nil {
+			got = "cert"
+		}
+	}
+	cl := "err"
+	if ferr == nil {
+		cl = "ok"
+	} else if os.Getenv("VERIF_DEBUG") != "" {
+		fmt.Fprintln(os.Stderr, "finalize:", ferr)
+	}
+	d := func(t string) int { return after[t] - before[t] }
+	out := fmt.Sprintf("%s got=%s tok=0 stored=%d data=%d acme=%d valid=%d trace=%s", cl, got,
+		d("x509_certs"), d("x509_certs_data"), d("acme_certs"), valid, c.List(ev))
+	return result{out: out, trace: ev}
+}
